@@ -144,6 +144,12 @@ static long lin5(double e, int bad) { double v; if (bad) return 400000; v = floo
 static void js_rng(const char *key, opus_uint32 v) { printf(",\"%s\":\"%08x\"", key, (unsigned)v); }
 
 /* ================================================================== C02 */
+/* the 'fuzzing' build variant takes its random decisions from rand(): seeded per execution, before the object is created */
+#ifdef FUZZING
+#define FUZZ_SEED(s) srand((unsigned)(s))
+#else
+#define FUZZ_SEED(s) ((void)(s))
+#endif
 typedef struct { int fo, co, api; OpusDecoder *d; OpusMSDecoder *md; OpusProjectionDecoder *pd; } dec_t;
 static struct {
    int kind;           /* 0 none, 1 enc, 2 surr, 3 penc */
@@ -192,18 +198,18 @@ static int c02_new(char *line)
    o.x++;
    if (!strcmp(kind, "enc")) {
       if (sscanf(line, "N enc %d %d %d %lu", &o.Fs, &o.ch, &o.app, &seed) != 4) return -1;
+      FUZZ_SEED(seed);
       o.e = opus_encoder_create(o.Fs, o.ch, o.app, &err); o.kind = 1; o.S = 1; o.C = o.ch == 2;
    } else if (!strcmp(kind, "surr")) {
       if (sscanf(line, "N surr %d %d %d %d %lu", &o.Fs, &o.ch, &o.fam, &o.app, &seed) != 5) return -1;
+      FUZZ_SEED(seed);
       o.me = opus_multistream_surround_encoder_create(o.Fs, o.ch, o.fam, &o.S, &o.C, map, o.app, &err); o.kind = 2;
    } else if (!strcmp(kind, "penc")) {
       if (sscanf(line, "N penc %d %d %d %d %lu", &o.Fs, &o.ch, &o.fam, &o.app, &seed) != 5) return -1;
+      FUZZ_SEED(seed);
       o.pe = opus_projection_ambisonics_encoder_create(o.Fs, o.ch, o.fam, &o.S, &o.C, o.app, &err); o.kind = 3;
    } else return -1;
    sig_init(&o.sig, seed);
-#ifdef FUZZING
-   srand((unsigned)seed);
-#endif
    if (!o.e && !o.me && !o.pe) { js_open("new"); js_int("x", o.x); js_str("t", kind); js_int("ok", 0); js_int("err", err); js_close(); o.kind = 0; return 0; }
    q = bar + 1;
    while (n < MAXDEC) {
